@@ -227,6 +227,30 @@ pub fn c14_pow_hessian_is_derivative_of_grad() {
     kani::cover!(j == 1 && h[1][1].a.0 > 1);
 }
 
+/// Membership predicates of the power cone: K_pow = { s1,s2 > 0, s1^a s2^(1-a) >= |s3| } and its dual are symmetric
+/// under s3 -> -s3, and exclude s1 = 0 / s2 = 0.  Run on the real generic code over Jet<GF(13)> with exp/ln
+/// uninterpreted (memoised: same argument, same value): the symmetry holds for EVERY interpretation of exp/ln, so
+/// it is demanded of any correct implementation; a predicate that lost the absolute value (compares with s3 instead
+/// of |s3| or s3^2) is refuted by a concrete field point with exp(..) = s3 != 0.
+#[kani::proof]
+#[kani::unwind(14)]
+pub fn c14_pow_membership_symmetric_in_s3() {
+    let alpha = any_alpha();
+    let c = PowerCone::<J>::new(J::constant(alpha));
+    let s = [J::constant(F::any()), J::constant(F::any()), J::constant(F::any())];
+    let m = [s[0], s[1], -s[2]];
+    let p = ph::is_primal_feasible(&c, &s);
+    let d = ph::is_dual_feasible(&c, &s);
+    assert!(p == ph::is_primal_feasible(&c, &m), "primal_membership_depends_on_s3_only_through_its_magnitude");
+    assert!(d == ph::is_dual_feasible(&c, &m), "dual_membership_depends_on_z3_only_through_its_magnitude");
+    if s[0].a.0 == 0 || s[1].a.0 == 0 {
+        assert!(!p && !d, "points_with_a_vanishing_first_or_second_coordinate_are_not_interior");
+    }
+    kani::cover!(p && s[2].a.0 != 0, "primal interior point with nonzero s3");
+    kani::cover!(!p && s[0].a.0 != 0 && s[1].a.0 != 0, "rejected by the product test");
+    kani::cover!(d && s[2].a.0 != 0, "dual interior point with nonzero z3");
+}
+
 fn pow_higher_correction<const Q: u16>(basis: bool) {
     let v = any_dir::<Q>(basis);
     let u = any_dir::<Q>(basis);
